@@ -456,16 +456,7 @@ def reusable(check, prog):
                       fail_detail='stores into an input: %s' % [
                           (e.get('target_src') or e.get('method'), e['lineno'])
                           for e in bad])
-    # reproducible subsets (seed forwarded; make_subset_data honours every seed)
-    q = N + '.initialize_fit'
-    it = Interp(prog, max_depth=1, opaque=[MD + 'make_subset_data'])
-    res = it.analyze(q)
-    ms = [c for c in it.calls if c['name'] == MD + 'make_subset_data']
-    ok = len(ms) == 1 and dict(ms[0]['kwargs']).get('seed') == ('attr', sym('self'), 'seed') \
-        and dict(ms[0]['kwargs']).get('pixels') == ('attr', sym('self'), 'npixels')
-    check.require(ok, 'L4-repeatable-subset', 'NmpfitStrategy.initialize_fit',
-                  'the pixel subset is drawn with the strategy\'s npixels and seed',
-                  prog.loc(q, prog.func(q)))
+    seeded_subset(check, prog)
     c07.subset(check, prog)
 
 
@@ -1012,6 +1003,19 @@ def reported(check, prog):
     check.require(ok, 'L8-best-fit-is-forward-model', 'FitResult.forward',
                   'self.model.forward(pars, <the data, or its remembered full grid>)',
                   prog.loc(q, fd), fail_detail='returns %s' % show(res.ret)[:200])
+
+
+def seeded_subset(check, prog):
+    # reproducible subsets (seed forwarded; make_subset_data honours every seed)
+    q = N + '.initialize_fit'
+    it = Interp(prog, max_depth=1, opaque=[MD + 'make_subset_data'])
+    res = it.analyze(q)
+    ms = [c for c in it.calls if c['name'] == MD + 'make_subset_data']
+    ok = len(ms) == 1 and dict(ms[0]['kwargs']).get('seed') == ('attr', sym('self'), 'seed') \
+        and dict(ms[0]['kwargs']).get('pixels') == ('attr', sym('self'), 'npixels')
+    check.require(ok, 'L4-repeatable-subset', 'NmpfitStrategy.initialize_fit',
+                  'the pixel subset is drawn with the strategy\'s npixels and seed',
+                  prog.loc(q, prog.func(q)))
 
 
 def wiring(check, prog):
@@ -1732,6 +1736,38 @@ def limit_sides(check, prog):
                                   'min(step, 0) at an upper bound)' % WORD[sd], loc_(x),
                                   fail_detail=why)
     check.floor('pegged-parameter tests and clips', npeg, 4)
+    # e. admissibility of the start values: a value *on* its bound is inside (the
+    # default guess of a half-infinite Uniform prior is its finite bound), so the
+    # refusal compares strictly -- below the lower, above the upper column
+    nadm = 0
+    for n in ast.walk(fn):
+        if not (isinstance(n, ast.Compare) and len(n.ops) == 1):
+            continue
+
+        def column(x):
+            if isinstance(x, ast.Subscript) and isinstance(x.value, ast.Name) and \
+                    x.value.id == 'limits' and isinstance(x.slice, ast.Tuple) and \
+                    len(x.slice.elts) == 2 and \
+                    isinstance(x.slice.elts[1], ast.Constant):
+                return x.slice.elts[1].value
+            return None
+        cl, cr = column(n.left), column(n.comparators[0])
+        if (cl is None) == (cr is None):
+            continue
+        nadm += 1
+        k = cr if cr is not None else cl
+        op = n.ops[0]
+        strict_below = isinstance(op, ast.Lt) if cr is not None else isinstance(op, ast.Gt)
+        strict_above = isinstance(op, ast.Gt) if cr is not None else isinstance(op, ast.Lt)
+        ok = strict_below if k == 0 else strict_above
+        check.require(ok, 'L12-limit-sides', 'mpfit.__init__ start value vs %s limit' %
+                      ('lower' if k == 0 else 'upper'),
+                      'a start value is refused only when it lies strictly %s its %s '
+                      'limit' % (('below', 'lower') if k == 0 else ('above', 'upper')),
+                      loc_(n), fail_detail='%s: a guess sitting on its bound is refused; '
+                      'mpfit returns status 0 with the guess as the result and the '
+                      'strategy reports it as a converged fit' % ast.unparse(n)[:80])
+    check.floor('start-value admissibility comparisons', nadm, 2)
     # d. write-back onto a bound: index set and bound of one side
     nput = [0]
 
